@@ -183,8 +183,15 @@ func checkDoc(c docCase, o *pbt.Rec) pbt.Verdict {
 		return pbt.OK
 	}
 	if label != "" && (label == "valid") != sv.reachValid {
-		o.Discard("label-vs-gqlparser:" + label + ":" + c.Mutator)
-		return pbt.OK
+		if c.Mutator == "subscription-two-root-fields" && sv.reachValid {
+			// invalid by construction (spec 5.2.3.1: the root selection set collects to exactly one
+			// response name); the gqlparser version at hand only counts different field names
+			sv.reachValid = false
+			o.Label("gqlparser-lax:subscription-root-response-names")
+		} else {
+			o.Discard("label-vs-gqlparser:" + label + ":" + c.Mutator)
+			return pbt.OK
+		}
 	}
 	schema, err := graphql.NewSchemaFromString(c.Super)
 	if err != nil {
